@@ -34,6 +34,9 @@ NestAll(k) == UNION {[1..n -> 0..k] : n \in Ns}
 NestThorough == NestAll(2) \cup {<<3>>, <<3, 1>>, <<1, 3>>, <<3, 3>>, <<0, 3>>}    \* 3 nested buffers: oldest # newest-but-one
 NestLive == {<<>>, <<1>>, <<2, 1>>, <<0, 2>>}
 NestLive3 == NestLive \cup {<<1, 2, 1>>, <<2, 0, 1>>}
+NestBig1 == {<<1, 1, 1, 1, 1, 1>>}
+NestBig == {<<1, 1, 1, 1, 1, 1>>, <<1, 2, 1, 1, 0, 1>>}     \* enough chunks to fill both queues (real bounds are >= 2)
+BoundsBig == {<<2, 2>>}
 BoundsLive == {<<1, 1>>}
 BoundsSmall == {<<1, 1>>, <<2, 2>>}
 BoundsAll == {<<1, 1>>, <<1, 2>>, <<2, 1>>, <<2, 2>>, <<3, 3>>}
